@@ -21,3 +21,5 @@ Definition rejected_bytes : list N := [44; 10; 36]%N.
 Definition reject_empty_required : bool := true.
 (* whether steps_write checks the result of fclose *)
 Definition close_checked : bool := true.
+(* whether action_write refuses a step=... argument that changes the id given by -i *)
+Definition step_key_checked : bool := true.
